@@ -424,6 +424,15 @@ def _norm(o):
     return o
 
 
+def _norm_solution(cls, o):
+    """Decoded solution in comparable form.  A partition is a pair of *multisets* of numbers: the order in which the
+    numbers of one side are listed follows the iteration order of the assignment handed to convert_solution and is
+    not part of the answer."""
+    if cls == "NumberPartitioning" and isinstance(o, (list, tuple)) and len(o) == 2:
+        return ("partition",) + tuple(tuple(sorted(part)) for part in o)
+    return _norm(o)
+
+
 def run_problem(spec, rec):
     import collections
     import qubovert as qv
@@ -448,18 +457,19 @@ def run_problem(spec, rec):
         vmin = tab.min()
         argmin = [int(r) for r in np.nonzero(tab == vmin)[0]]
         expected = collections.Counter(
-            _norm(lib(prob.convert_solution, ref.assignment(order, r, False), what="convert_solution")) for r in argmin)
+            _norm_solution(spec["cls"], lib(prob.convert_solution, ref.assignment(order, r, False), what="convert_solution"))
+            for r in argmin)
         want_all = bool(spec["all"])
         res = lib(prob.solve_bruteforce, all_solutions=want_all, what="Problem.solve_bruteforce")
         ctx = "spec=%r qubo=%r" % (spec, terms)
         if want_all:
             if not isinstance(res, list):
                 raise Violation("problem/all_solutions_not_list", "%r; %s" % (res, ctx))
-            got = collections.Counter(_norm(x) for x in res)
+            got = collections.Counter(_norm_solution(spec["cls"], x) for x in res)
             if got != expected:
                 raise Violation("problem/all_solutions_ne_argmin_set", "got %r, reference %r; %s" % (res, sorted(expected, key=repr), ctx))
         else:
-            if _norm(res) not in expected:
+            if _norm_solution(spec["cls"], res) not in expected:
                 raise Violation("problem/solution_not_a_minimiser", "got %r, reference %r; %s" % (res, sorted(expected, key=repr), ctx))
         if _norm(arg) != arg_before or dict(lib(prob.to_qubo, what="to_qubo")) != terms:
             raise Violation("problem/changed", ctx)
